@@ -51,6 +51,15 @@ inductive Pos where
 
 def debuggers : List String := ["pdb.set_trace", "ipdb.set_trace", "breakpoint"]
 
+/-- The callee's qualified name as the USER wrote it: the variables converter (the last pass) wraps every
+original load `x` into `ag__.ld(x)`, so `print(…)` reaches the output as `ag__.ld(print)(…)` and
+`pdb.set_trace()` as `ag__.ld(pdb).set_trace()`; `ag__.ld(·)` is transparent here. -/
+def calleeQn : Expr → Option String
+  | .name _ s _ => some s
+  | .attr _ v a _ => (calleeQn v).map fun b => b ++ "." ++ a
+  | .call _ f [x] [] => if qnStr f == some "ag__.ld" then calleeQn x else none
+  | e => qnStr e
+
 /-- E3–E6 -/
 def allowedCallee (cfg : Cfg) (scopes : List String) (full : String) : Bool :=
   full.startsWith "ag__." || scopes.any (fun c => full.startsWith (c ++ "."))
@@ -64,7 +73,7 @@ def packOk (pos : Pos) (f : Expr) (args kws : List Expr) : Bool :=
   | _, _, _, _ => false
 
 def callOk (cfg : Cfg) (sc : List String) (inWith : Bool) (pos : Pos) (f : Expr) (args kws : List Expr) : Bool :=
-  inWith || allowedCallee cfg sc ((qnStr f).getD "") || packOk pos f args kws
+  inWith || allowedCallee cfg sc ((calleeQn f).getD "") || packOk pos f args kws
 
 /-- positions of the arguments of a call with callee QN `full` -/
 def argPositions (full : String) : List Pos :=
@@ -86,7 +95,7 @@ def offE (cfg : Cfg) (sc : List String) (w : Bool) (pos : Pos) : Expr → List O
   | .const _ _ _ => []
   | .noneMarker => []
   | .call i f as ks =>
-      (if callOk cfg sc w pos f as ks then [] else [⟨"Call", i, (qnStr f).getD ""⟩])
+      (if callOk cfg sc w pos f as ks then [] else [⟨"Call", i, (calleeQn f).getD ""⟩])
         ++ offE cfg sc w .normal f ++ offEs cfg sc w (argPositions ((qnStr f).getD "")) as ++ offEs cfg sc w [] ks
   | .boolop i isAnd vs => ⟨"BoolOp", i, if isAnd then "and" else "or"⟩ :: offEs cfg sc w [] vs
   | .unary i op e => (if op == "Not" then [⟨"Not", i, ""⟩] else []) ++ offE cfg sc w .normal e
@@ -256,5 +265,101 @@ end
 
 /-- C04 for a converted entity: every overloadable construct is routed (none is native outside E1–E8). -/
 def NoNativeProp (cfg : Cfg) (g : List Stmt) : Prop := OkB cfg [] (blockRoles g) false g
+
+/-! ### kind-based vocabulary for the theorems about the MODELS (Props/C04.lean)
+
+`anyE p e`: some node of the expression tree `e` (including `e`) satisfies `p`; `anyS`/`anyB` likewise over
+every expression occurring anywhere in a statement / block (nested blocks, defs, classes included). -/
+mutual
+def anyKids (p : Expr → Bool) : Expr → Bool
+  | .name _ _ _ => false
+  | .const _ _ _ => false
+  | .noneMarker => false
+  | .attr _ v _ _ => p v || anyKids p v
+  | .subscript _ v s _ => (p v || anyKids p v) || (p s || anyKids p s)
+  | .call _ f as ks => (p f || anyKids p f) || anyKidsL p as || anyKidsL p ks
+  | .keyword _ _ _ v => p v || anyKids p v
+  | .boolop _ _ vs => anyKidsL p vs
+  | .unary _ _ e => p e || anyKids p e
+  | .binop _ _ l r => (p l || anyKids p l) || (p r || anyKids p r)
+  | .compare _ l _ rs => (p l || anyKids p l) || anyKidsL p rs
+  | .ifexp _ t b e => (p t || anyKids p t) || (p b || anyKids p b) || (p e || anyKids p e)
+  | .lambda _ as b => (p as || anyKids p as) || (p b || anyKids p b)
+  | .seq _ _ es _ => anyKidsL p es
+  | .starred _ v _ => p v || anyKids p v
+  | .namedexpr _ t v => (p t || anyKids p t) || (p v || anyKids p v)
+  | .comp _ _ es gs => anyKidsL p es || anyKidsL p gs
+  | .comprehension _ t it ifs _ => (p t || anyKids p t) || (p it || anyKids p it) || anyKidsL p ifs
+  | .arguments _ a b c d e f g =>
+      anyKidsL p a || anyKidsL p b || anyKidsL p c || anyKidsL p d || anyKidsL p e || anyKidsL p f || anyKidsL p g
+  | .arg _ _ an => anyKidsL p an
+  | .withitem _ c v => (p c || anyKids p c) || anyKidsL p v
+  | .other _ _ _ ks => anyKidsL p ks
+def anyKidsL (p : Expr → Bool) : List Expr → Bool
+  | [] => false
+  | e :: es => (p e || anyKids p e) || anyKidsL p es
+end
+
+def anyE (p : Expr → Bool) (e : Expr) : Bool := p e || anyKids p e
+def anyEs (p : Expr → Bool) (es : List Expr) : Bool := anyKidsL p es
+
+mutual
+def anyS (p : Expr → Bool) : Stmt → Bool
+  | .functionDef _ _ as b ds rs _ => anyE p as || anyB p b || anyEs p ds || anyEs p rs
+  | .classDef _ _ bs ks b ds => anyEs p bs || anyEs p ks || anyB p b || anyEs p ds
+  | .ret _ v => anyEs p v
+  | .delete _ ts => anyEs p ts
+  | .assign _ ts v => anyEs p ts || anyE p v
+  | .augAssign _ t _ v => anyE p t || anyE p v
+  | .annAssign _ t an v _ => anyE p t || anyE p an || anyEs p v
+  | .for_ _ t it b e _ _ => anyE p t || anyE p it || anyB p b || anyB p e
+  | .while_ _ t b e => anyE p t || anyB p b || anyB p e
+  | .if_ _ t b e => anyE p t || anyB p b || anyB p e
+  | .with_ _ its b _ => anyEs p its || anyB p b
+  | .raise _ e c => anyEs p e || anyEs p c
+  | .try_ _ b hs e f => anyB p b || anyB p hs || anyB p e || anyB p f
+  | .handler _ t _ b => anyEs p t || anyB p b
+  | .assert_ _ t m => anyE p t || anyEs p m
+  | .import_ _ _ => false
+  | .importFrom _ _ _ _ => false
+  | .global _ _ => false
+  | .nonlocal _ _ => false
+  | .expr _ v => anyE p v
+  | .pass _ => false
+  | .break_ _ => false
+  | .continue_ _ => false
+  | .other _ _ es bs => anyEs p es || anyB p bs
+def anyB (p : Expr → Bool) : List Stmt → Bool
+  | [] => false
+  | s :: ss => anyS p s || anyB p ss
+end
+
+def isBoolOp : Expr → Bool
+  | .boolop .. => true
+  | _ => false
+def isNot : Expr → Bool
+  | .unary _ op _ => op == "Not"
+  | _ => false
+def isIfExp : Expr → Bool
+  | .ifexp .. => true
+  | _ => false
+def isEqCompare (eqOn : Bool) : Expr → Bool
+  | .compare _ _ ops _ => eqOn && ops.any isEqOp
+  | _ => false
+
+/-- a native logical construct: `and`/`or`, `not`, and `==`/`!=` under EQUALITY_OPERATORS -/
+def nativeLogical (eqOn : Bool) (e : Expr) : Bool := isBoolOp e || isNot e || isEqCompare eqOn e
+
+/-- a native overloadable EXPRESSION construct other than a call -/
+def nativeExprKind (eqOn : Bool) (e : Expr) : Bool := nativeLogical eqOn e || isIfExp e
+
+/-- a conditional expression with a conditional expression somewhere inside it -/
+def nestedIfExpHere : Expr → Bool
+  | .ifexp _ t b e => anyE isIfExp t || anyE isIfExp b || anyE isIfExp e
+  | _ => false
+
+/-- Hypothesis of `C04_ifexp_routed_partial`; its negation is the class `ifexp_nested_in_ifexp_branch`. -/
+def noNestedIfExpE (e : Expr) : Bool := !anyE nestedIfExpHere e
+def noNestedIfExpB (b : List Stmt) : Bool := !anyB nestedIfExpHere b
 
 end Malt.Conv.NoNative
